@@ -497,6 +497,21 @@ impl FileSpec {
             enum_type,
             service,
             syntax: Some("proto3".into()),
+            // what `protoc --include_source_info` (tonic-build's default) adds: comments and spans
+            // are part of the registered file and must be served back with it
+            source_code_info: if fname.contains('/') {
+                None
+            } else {
+                Some(prost_types::SourceCodeInfo {
+                    location: vec![prost_types::source_code_info::Location {
+                        path: vec![4, 0],
+                        span: vec![1, 0, 3, 1],
+                        leading_comments: Some(" documented in the source file\n".into()),
+                        trailing_comments: None,
+                        leading_detached_comments: vec![" detached\n".into()],
+                    }],
+                })
+            },
             ..Default::default()
         }
     }
